@@ -1,4 +1,12 @@
 #![allow(unused)]
 //! Kani harnesses over pallas-crypto (C10, C11, C12, C14).
 #[cfg(kani)]
+mod stubs;
+#[cfg(kani)]
+mod c10;
+#[cfg(kani)]
+mod c11;
+#[cfg(kani)]
+mod c12;
+#[cfg(kani)]
 mod c14;
